@@ -17,7 +17,7 @@ BOUNDS = dict(**{'quick': {'tasks': 2, 'graphs': 'all 3 labelled graphs on 2 tas
                                               'plus': '3-task chain, fan-in hard+soft, hard-then-soft chain with 1 worker',
                                               'outcomes': KINDS, 'depth': 'every run, first K = 22+11N+6W steps'},
                                     'thorough': {'tasks': '<= 3', 'graphs': 'all 27 labelled graphs on 3 tasks (W=1), 2-task graphs W<=2',
-                                                 'outcomes': KINDS, 'depth': 'W=1: K = 22+11N+6W established by the unwinding query (every run is complete within K); W=2: first K steps of every run (unwinding query out of reach)'}})
+                                                 'outcomes': KINDS, 'depth': 'W=1 and (<= 2 tasks or no soft edge): K = 22+11N+6W established by the unwinding query (every run is complete within K); otherwise first K steps of every run (unwinding query out of reach)'}})
 EXPLANATION = ('extracted thread automata + z3 bounded model checking (QF_BV): at every terminated state of every interleaving the status map '
                'equals F(graph, outcomes) and no task was executed twice; counterexamples replayed on real threads')
 extra_coverage = sched.extra_coverage
